@@ -225,4 +225,511 @@ Proof.
   rewrite K. destruct (root_of (frames s)); [discriminate|exact E].
 Qed.
 
+(* ------------------------------------------------------------------ *)
+(* the bodies of the interpreter (walked as in MemoProps) *)
+
+Hypothesis Hprog : nc_prog prog = true.
+
+Definition ev_sim2 (r : ev) : Prop :=
+  (forall qi q cur cv, nc_query q = true -> sim2 (ev_query r qi q cur cv) (fun k => ev_query (r' k) qi q cur cv)) /\
+  (forall g, nc_clause g = true -> sim2 (ev_clause r g) (fun k => ev_clause (r' k) g)) /\
+  (forall x, nc_rule x = true -> sim2 (ev_rule r x) (fun k => ev_rule (r' k) x)) /\
+  (forall n, sim2 (ev_resolve r n) (fun k => ev_resolve (r' k) n)) /\
+  (forall f ps, forallb nc_lv ps = true -> sim2 (ev_fn r f ps) (fun k => ev_fn (r' k) f ps)).
+
+Variable r : ev.
+Hypothesis Hr : ev_sim2 r.
+
+Let Hq := proj1 Hr.
+Let Hc := proj1 (proj2 Hr).
+Let Hrule := proj1 (proj2 (proj2 Hr)).
+Let Hres := proj1 (proj2 (proj2 (proj2 Hr))).
+Let Hfn := proj2 (proj2 (proj2 (proj2 Hr))).
+
+Ltac sm_step :=
+  first
+  [ assumption
+  | apply sim2_ret | apply sim2_failM | apply sim2_panicM | apply sim2_unknownM | apply sim2_oofM
+  | apply sim2_lift | apply sim2_leaf | apply sim2_ctx_root
+  | apply sim2_bind; [|intros ?]
+  | apply sim2_mapM; intros ?
+  | apply sim2_concatMapM; intros ?
+  | apply sim2_node
+  | apply sim2_with_frame; [first [exact I | split; [assumption|reflexivity]]|]
+  | match goal with |- sim2 (match ?x with _ => _ end) _ => destruct x; cbv beta iota end
+  | match goal with |- sim2 (if ?x then _ else _) _ => destruct x; cbv beta iota end
+  | match goal with |- sim2 (let (_, _) := ?x in _) _ => destruct x; cbv beta iota end ].
+
+Ltac ncsplit := repeat match goal with H : _ && _ = true |- _ => apply andb_prop in H; destruct H end.
+
+Ltac sh := first [apply Hq; assumption | apply Hc; assumption | apply Hrule; assumption | apply Hres | apply Hfn; assumption].
+Ltac sl := fail.
+Ltac sms := repeat first [sl | sh | sm_step].
+
+
+(* the Done half of the hypothesis is MemoProps' *)
+Lemma Hr1 : ev_sim prog r' r.
+Proof.
+  destruct Hr as (H1 & H2 & H3 & H4 & H5). split; [|split; [|split; [|split]]].
+  - intros qi q cur cv Hn. exact (proj1 (H1 qi q cur cv Hn)).
+  - intros g Hn. exact (proj1 (H2 g Hn)).
+  - intros x Hn. exact (proj1 (H3 x Hn)).
+  - intros n. exact (proj1 (H4 n)).
+  - intros f ps Hn. exact (proj1 (H5 f ps Hn)).
+Qed.
+
+Lemma nc_rules_named name x : In x (rules_named prog name) -> nc_rule x = true.
+Proof. apply (MemoProps.nc_rules_named prog Hprog). Qed.
+Lemma find_param_rule_nc dep p : find_param_rule prog dep = Some p -> nc_rule (pr_rule p) = true.
+Proof. apply (MemoProps.find_param_rule_nc prog Hprog). Qed.
+
+Lemma simF_simF_at {A} (m : M A) m' s : simF m m' -> simF_at s m m'.
+Proof. intros H ft Hv E. eapply H; eassumption. Qed.
+
+Lemma ctx_query_fs_simF q : nc_query q = true ->
+  forall fs s, frames s = fs -> simF_at s (ctx_query_fs r fs q) (fun k => ctx_query_fs (r' k) (map fshape fs) q).
+Proof.
+  intros Hnq fs. induction fs as [|f rest IH]; intros s Efs ft Hv E; cbn [ctx_query_fs] in E.
+  - exists 0. intros k _. exact E.
+  - destruct f as [root l memo|root l memo|root|b c0 m0]; cbn [map fshape ctx_query_fs].
+    + exact (proj2 (Hq 0 q root None Hnq) s ft Hv E).
+    + exact (proj2 (Hq 0 q root None Hnq) s ft Hv E).
+    + assert (Hne : map fshape rest <> []).
+      { destruct Hv as (Hwf & _). rewrite Efs in Hwf. cbn [map] in Hwf. eapply wf_nonroot_rest; [exact Hwf|discriminate]. }
+      exact (with_parent_simF _ _ _ _ _ _ (simF_simF_at _ _ _ (proj2 (Hq 0 q root None Hnq))) Hv Efs Hne E).
+    + assert (Hne : map fshape rest <> []).
+      { destruct Hv as (Hwf & _). rewrite Efs in Hwf. cbn [map] in Hwf. eapply wf_nonroot_rest; [exact Hwf|discriminate]. }
+      exact (with_parent_simF _ _ _ _ _ _ (IH (mkState rest (statuses s)) eq_refl) Hv Efs Hne E).
+Qed.
+
+Lemma sim2_ctx_query q : nc_query q = true -> sim2 (ctx_query r q) (fun k => ctx_query (r' k) q).
+Proof.
+  intros Hnq. split; [apply (sim_ctx_query prog r' r Hr1 q Hnq)|].
+  intros s ft Hv E. unfold ctx_query in E.
+  eapply Ev_impl; [|exact (ctx_query_fs_simF q Hnq (frames s) s eq_refl ft Hv E)].
+  intros k Hk. unfold ctx_query, erase at 1. exact Hk.
+Qed.
+
+Lemma sim2_param_values (params : list let_value) :
+  forallb nc_lv params = true ->
+  sim2 (mapM (fun p => match p with
+                      | LValue v => ret [QLiteral v]
+                      | LAccess a => ctx_query r (aq_query a)
+                      | LFunction ps n => ev_fn r n ps
+                      end) params)
+      (fun k => mapM (fun p => match p with
+                      | LValue v => ret [QLiteral v]
+                      | LAccess a => ctx_query (r' k) (aq_query a)
+                      | LFunction ps n => ev_fn (r' k) n ps
+                      end) params).
+Proof.
+  intros Hp. apply (sim2_mapM_in _ (fun k p => match p with
+                      | LValue v => ret [QLiteral v]
+                      | LAccess a => ctx_query (r' k) (aq_query a)
+                      | LFunction ps n => ev_fn (r' k) n ps
+                      end)).
+  intros p Hin. pose proof (forallb_in _ _ _ Hp Hin) as Hnp. destruct p as [v|a|ps n]; cbn in Hnp.
+  - apply sim2_ret.
+  - apply sim2_ctx_query. apply nc_aq_query. exact Hnp.
+  - apply Hfn. exact Hnp.
+Qed.
+
+Lemma sim2_fn_body name params : forallb nc_lv params = true -> sim2 (fn_body r name params) (fun k => fn_body (r' k) name params).
+Proof.
+  intros Hp. unfold fn_body. apply sim2_bind; [apply sim2_param_values; exact Hp|]. intros args. sms.
+Qed.
+
+
+Lemma fault_done_bind {A B} (m : M A) (f : A -> M B) s a r1 s1 : m s = Done (a, r1, s1) -> fault_of (bind m f s) = fault_of (f a s1).
+Proof. intros E. unfold bind. rewrite E. destruct (f a s1) as [[[b r2] s2]| | | |]; reflexivity. Qed.
+
+Lemma set_top_memo_done is_root root lets memo rest s name vals :
+  frames s = top_frame is_root root lets memo :: rest -> exists s2, set_top_memo name vals s = Done (tt, [], s2).
+Proof. intros Ef. unfold set_top_memo. rewrite Ef. destruct is_root; cbn; eexists; reflexivity. Qed.
+
+Lemma resolve_scope_simF is_root root lets memo rest name s :
+  frames s = top_frame is_root root lets memo :: rest ->
+  simF_at s (resolve_scope r is_root root lets memo name) (fun k => resolve_scope' (r' k) is_root root lets name).
+Proof.
+  intros Ef ft Hv E. destruct (top_frame_valid prog r' _ _ _ _ _ _ Ef Hv) as [Hl Hmemo].
+  unfold resolve_scope in E.
+  destruct (find_literal name lets) as [v|] eqn:Elit; [discriminate|].
+  destruct (assoc name memo) as [vals|] eqn:Ememo; [discriminate|].
+  destruct (find_function name lets) as [[ps fn]|] eqn:Efn.
+  { pose proof (Hfn fn ps (find_function_nc _ _ _ _ Hl Efn)) as [Hd Hf].
+    destruct (ev_fn r fn ps s) as [[[result r1] s1]| | | |] eqn:E1.
+    - exfalso. rewrite (fault_done_bind _ _ _ _ _ _ E1) in E.
+      destruct (Hd _ _ _ _ Hv E1) as (V1 & Ee1 & _).
+      destruct (same_top_frame _ _ _ _ _ _ _ Ef Ee1) as (memo1 & rest1 & Ef1).
+      destruct (set_top_memo_done _ _ _ _ _ _ name result Ef1) as (s2 & E2).
+      rewrite (fault_done_bind _ _ _ _ _ _ E2) in E. discriminate.
+    - assert (E0 : fault_of (ev_fn r fn ps s) = Some ft) by (rewrite E1; unfold bind in E; rewrite E1 in E; exact E).
+      eapply Ev_impl; [|exact (Hf s ft Hv E0)]. intros k Hk. unfold resolve_scope'. rewrite Elit, Efn. exact Hk.
+    - assert (E0 : fault_of (ev_fn r fn ps s) = Some ft) by (rewrite E1; unfold bind in E; rewrite E1 in E; exact E).
+      eapply Ev_impl; [|exact (Hf s ft Hv E0)]. intros k Hk. unfold resolve_scope'. rewrite Elit, Efn. exact Hk.
+    - unfold bind in E. rewrite E1 in E. discriminate.
+    - assert (E0 : fault_of (ev_fn r fn ps s) = Some ft) by (rewrite E1; unfold bind in E; rewrite E1 in E; exact E).
+      eapply Ev_impl; [|exact (Hf s ft Hv E0)]. intros k Hk. unfold resolve_scope'. rewrite Elit, Efn. exact Hk. }
+  destruct (find_query name lets) as [aq|] eqn:Eq.
+  { pose proof (nc_aq_query _ (find_query_nc _ _ _ Hl Eq)) as Hnq.
+    pose proof (Hq 0 (aq_query aq) root None Hnq) as [Hd Hf].
+    destruct (ev_query r 0 (aq_query aq) root None s) as [[[result r1] s1]| | | |] eqn:E1.
+    - exfalso. rewrite (fault_done_bind _ _ _ _ _ _ E1) in E.
+      destruct (Hd _ _ _ _ Hv E1) as (V1 & Ee1 & _).
+      destruct (same_top_frame _ _ _ _ _ _ _ Ef Ee1) as (memo1 & rest1 & Ef1).
+      destruct (set_top_memo_done _ _ _ _ _ _ name (if aq_all aq then result else filter is_resolved result) Ef1) as (s2 & E2).
+      rewrite (fault_done_bind _ _ _ _ _ _ E2) in E. discriminate.
+    - assert (E0 : fault_of (ev_query r 0 (aq_query aq) root None s) = Some ft) by (rewrite E1; unfold bind in E; rewrite E1 in E; exact E).
+      eapply Ev_impl; [|exact (Hf s ft Hv E0)]. intros k Hk. unfold resolve_scope'. rewrite Elit, Efn, Eq. apply fault_bind_l. exact Hk.
+    - assert (E0 : fault_of (ev_query r 0 (aq_query aq) root None s) = Some ft) by (rewrite E1; unfold bind in E; rewrite E1 in E; exact E).
+      eapply Ev_impl; [|exact (Hf s ft Hv E0)]. intros k Hk. unfold resolve_scope'. rewrite Elit, Efn, Eq. apply fault_bind_l. exact Hk.
+    - unfold bind in E. rewrite E1 in E. discriminate.
+    - assert (E0 : fault_of (ev_query r 0 (aq_query aq) root None s) = Some ft) by (rewrite E1; unfold bind in E; rewrite E1 in E; exact E).
+      eapply Ev_impl; [|exact (Hf s ft Hv E0)]. intros k Hk. unfold resolve_scope'. rewrite Elit, Efn, Eq. apply fault_bind_l. exact Hk. }
+  destruct is_root.
+  { exists 0. intros k _. unfold resolve_scope'. rewrite Elit, Efn, Eq. exact E. }
+  assert (Hne : map fshape rest <> []).
+  { destruct Hv as (Hwf & _). rewrite Ef in Hwf. cbn [map] in Hwf. eapply wf_nonroot_rest; [exact Hwf|discriminate]. }
+  eapply Ev_impl; [|exact (with_parent_simF _ _ _ _ _ _ (simF_simF_at _ _ _ (proj2 (Hres name))) Hv Ef Hne E)].
+  intros k Hk. unfold resolve_scope'. rewrite Elit, Efn, Eq. exact Hk.
+Qed.
+
+Lemma sim2_resolve_body name : sim2 (resolve_body r name) (fun k => resolve_body' (r' k) name).
+Proof.
+  split; [apply (sim_resolve_body prog r' r Hr1)|].
+  intros s ft Hv E. unfold resolve_body in E. destruct (frames s) as [|f rest] eqn:Ef.
+  { exists 0. intros k _. unfold resolve_body', erase. cbn [frames]. rewrite Ef. exact E. }
+  assert (Hshape : frames (erase s) = fshape f :: map fshape rest) by (unfold erase; rewrite Ef; reflexivity).
+  assert (Hp : map fshape rest <> [] -> fault_of (with_parent (ev_resolve r name) s) = Some ft ->
+               faults (fun k => with_parent (ev_resolve (r' k) name)) (erase s) ft).
+  { intros Hne E0. exact (with_parent_simF _ _ _ _ _ _ (simF_simF_at _ _ _ (proj2 (Hres name))) Hv Ef Hne E0). }
+  destruct f as [root l memo|root l memo|root|b c0 m0].
+  - eapply Ev_impl; [|exact (resolve_scope_simF true root l memo rest name s Ef ft Hv E)].
+    intros k Hk. unfold resolve_body'. rewrite Hshape. exact Hk.
+  - eapply Ev_impl; [|exact (resolve_scope_simF false root l memo rest name s Ef ft Hv E)].
+    intros k Hk. unfold resolve_body'. rewrite Hshape. exact Hk.
+  - assert (Hne : map fshape rest <> []).
+    { destruct Hv as (Hwf & _). rewrite Ef in Hwf. cbn [map] in Hwf. eapply wf_nonroot_rest; [exact Hwf|discriminate]. }
+    eapply Ev_impl; [|exact (Hp Hne E)]. intros k Hk. unfold resolve_body'. rewrite Hshape. exact Hk.
+  - destruct (assoc name b) as [res|] eqn:Eb; [discriminate|].
+    assert (Hne : map fshape rest <> []).
+    { destruct Hv as (Hwf & _). rewrite Ef in Hwf. cbn [map] in Hwf. eapply wf_nonroot_rest; [exact Hwf|discriminate]. }
+    eapply Ev_impl; [|exact (Hp Hne E)]. intros k Hk. unfold resolve_body'. rewrite Hshape. cbn [fshape]. rewrite Eb. exact Hk.
+Qed.
+
+Lemma sim2_rq qi q cur cv : nc_query q = true -> sim2 (rq r qi q cur cv) (fun k => rq (r' k) qi q cur cv).
+Proof. apply Hq. Qed.
+Ltac sl ::= first [apply sim2_ctx_query; assumption | apply sim2_rq; assumption].
+
+Lemma sim2_map_resolved qr f f' : (forall v, sim2 (f v) (fun k => f' k v)) -> sim2 (map_resolved qr f) (fun k => map_resolved qr (f' k)).
+Proof. intros Hf. unfold map_resolved. destruct qr; cbv beta iota; try apply sim2_ret. apply Hf. Qed.
+
+Lemma sim2_accumulate parent qi q elements cv : nc_query q = true ->
+  sim2 (accumulate r parent qi q elements cv) (fun k => accumulate (r' k) parent qi q elements cv).
+Proof. intros Hn. unfold accumulate. sms. Qed.
+
+Lemma sim2_accumulate_map parent keys vals qi q cv func func' :
+  (forall a c d, sim2 (func a q c d cv) (fun k => func' k a q c d cv)) ->
+  sim2 (accumulate_map parent keys vals qi q cv func) (fun k => accumulate_map parent keys vals qi q cv (func' k)).
+Proof. intros Hf. unfold accumulate_map. sms. apply Hf. Qed.
+
+Lemma sim2_eval_filter_cnf cnf : nc_cnf cnf = true -> sim2 (eval_filter_cnf r cnf) (fun k => eval_filter_cnf (r' k) cnf).
+Proof.
+  intros Hn. unfold eval_filter_cnf. apply (sim2_cnf_body_in (ev_clause r) (fun k => ev_clause (r' k))).
+  intros line x Hl Hx. apply Hc. eapply nc_cnf_in; eassumption.
+Qed.
+Ltac sl ::= first [apply sim2_ctx_query; assumption | apply sim2_rq; assumption | apply sim2_eval_filter_cnf; assumption
+                  | apply sim2_accumulate; assumption].
+
+Lemma sim2_check_and_delegate cnf index q key value cv : nc_cnf cnf = true -> nc_query q = true ->
+  sim2 (check_and_delegate r cnf None index q key value cv) (fun k => check_and_delegate (r' k) cnf None index q key value cv).
+Proof. intros Hn Hnq. unfold check_and_delegate. sms. Qed.
+
+Lemma sim2_lookup_key vals cur k0 qi q cv : nc_query q = true ->
+  sim2 (lookup_key conv r vals cur k0 qi q cv) (fun k => lookup_key conv (r' k) vals cur k0 qi q cv).
+Proof. intros Hn. unfold lookup_key. destruct (map_get k0 vals); [apply sim2_rq; assumption|]. destruct cv as [c|]; sms. Qed.
+
+Lemma sim2_interpolate var vals cur qi q cv : nc_query q = true ->
+  sim2 (interpolate r var vals cur qi q cv) (fun k => interpolate (r' k) var vals cur qi q cv).
+Proof. intros Hn. unfold interpolate. sms. Qed.
+
+Lemma sim2_old_report_value c x : sim2 (old_report_value c x) (fun _ => old_report_value c x).
+Proof. unfold old_report_value. sms. Qed.
+Ltac sl ::= first [apply sim2_ctx_query; assumption | apply sim2_rq; assumption | apply sim2_eval_filter_cnf; assumption
+                  | apply sim2_accumulate; assumption | apply sim2_old_report_value].
+
+Lemma sim2_real_binary_operation lhs rhs c0 : sim2 (real_binary_operation re lhs rhs c0) (fun _ => real_binary_operation re lhs rhs c0).
+Proof. unfold real_binary_operation. sms. Qed.
+Ltac sl ::= first [apply sim2_ctx_query; assumption | apply sim2_rq; assumption | apply sim2_eval_filter_cnf; assumption
+                  | apply sim2_accumulate; assumption | apply sim2_old_report_value | apply sim2_real_binary_operation
+                  | apply sim2_lookup_key; assumption | apply sim2_interpolate; assumption
+                  | apply sim2_check_and_delegate; assumption | apply sim2_map_resolved; intros ?].
+
+Lemma sim2_map_key_filter c w keys vals cur qi q cv : nc_lv w = true -> nc_query q = true ->
+  sim2 (map_key_filter re r c w keys vals cur qi q cv) (fun k => map_key_filter re (r' k) c w keys vals cur qi q cv).
+Proof.
+  intros Hw Hn. unfold map_key_filter. destruct w as [v|a|ps n]; cbn in Hw.
+  - sms.
+  - pose proof (nc_aq_query _ Hw) as Ha. sms.
+  - sms.
+Qed.
+
+Lemma sim2_query_body qi q cur cv : nc_query q = true ->
+  sim2 (query_body re conv r qi q cur cv) (fun k => query_body re conv (r' k) qi q cur cv).
+Proof.
+  intros Hn. unfold query_body. destruct (nth_error q qi) as [part|] eqn:En; [|sms].
+  pose proof (nth_error_nc _ _ _ Hn En) as Hpart.
+  destruct (if Nat.eqb qi 0 then part_variable part else None) as [var|].
+  { sms. }
+  destruct part as [|k0|mname c w|name|name|i|name cnf]; cbn in Hpart.
+  - sms.
+  - sms.
+  - destruct cur; try (apply sim2_map_key_filter; assumption); sms.
+  - destruct name; [discriminate|]. destruct cur; sms. apply sim2_accumulate_map. intros. sms.
+  - destruct name; [discriminate|]. destruct cur; sms.
+  - sms.
+  - destruct name; [discriminate|]. fold (nc_cnf cnf) in Hpart. destruct cur; sms.
+Qed.
+
+
+Ltac sl2 := fail.
+Ltac sms2 := repeat first [sl2 | sl | sh | sm_step].
+
+Lemma sim2_unary_operation lq c inverse custom : nc_query lq = true ->
+  sim2 (unary_operation r lq c inverse custom) (fun k => unary_operation (r' k) lq c inverse custom).
+Proof. intros Hn. unfold unary_operation. sms2. Qed.
+
+Lemma sim2_binary_operation lq rhs c custom : nc_query lq = true ->
+  sim2 (binary_operation re r lq rhs c custom) (fun k => binary_operation re (r' k) lq rhs c custom).
+Proof. intros Hn. unfold binary_operation. sms2. Qed.
+
+Lemma sim2_access_clause_body g : nc_ac g = true -> sim2 (access_clause_body re r g) (fun k => access_clause_body re (r' k) g).
+Proof.
+  intros Hn. destruct g as [aq c w custom negation]. cbn in Hn. ncsplit. pose proof (nc_aq_query _ H) as Hq1.
+  unfold access_clause_body. apply sim2_bind; [|intros ?; sms2]. apply sim2_node. apply sim2_bind; [|intros ?; sms2].
+  destruct (is_unary (fst c)); [apply sim2_unary_operation; assumption|].
+  destruct w as [wv|]; [|sms2].
+  apply sim2_bind; [|intros ?; apply sim2_binary_operation; assumption].
+  destruct wv as [v|a|ps n]; cbn in H0; [sms2| |apply Hfn; assumption].
+  apply sim2_ctx_query. apply nc_aq_query. assumption.
+Qed.
+
+Lemma sim2_first_non_skip rules : (forall x, In x rules -> nc_rule x = true) ->
+  sim2 (first_non_skip r rules) (fun k => first_non_skip (r' k) rules).
+Proof.
+  induction rules as [|x rest IH]; intros Hn; cbn [first_non_skip]; [apply sim2_ret|].
+  apply (sim2_bind (ev_rule r x) (fun k => ev_rule (r' k) x) _
+           (fun k st => match st with SKIP => first_non_skip (r' k) rest | _ => ret st end)).
+  - apply Hrule. apply Hn. left. reflexivity.
+  - intros st. destruct st; try apply sim2_ret. apply IH. intros y Hy. apply Hn. right. exact Hy.
+Qed.
+
+
+Lemma sim2_rule_status_body name : sim2 (rule_status_body prog r name) (fun k => rule_status_body' prog (r' k) name).
+Proof.
+  split; [apply (sim_rule_status_body prog r' Hprog r Hr1)|].
+  unfold rule_status_body, rule_status_body'.
+  refine (proj2 (sim2_at_root _ _ _ _)).
+  - (* the Done half, as in MemoProps: obtained from its lemma by unfolding at_root is not possible; re-derive from sim *)
+    intros s0 Hlen a recs s' Hv H.
+    assert (Eroot : root_shape (map fshape (frames s0)) = erase s0).
+    { unfold root_shape, erase. rewrite map_length, Hlen. reflexivity. }
+    destruct (assoc name (statuses s0)) as [st|] eqn:Ec.
+    + apply ret_inv in H as (-> & _ & ->). split; [exact Hv|split; [reflexivity|]].
+      destruct Hv as (_ & _ & Hvs). specialize (Hvs name st Ec). rewrite Eroot in Hvs. exact Hvs.
+    + destruct (rules_named prog name) as [|x rest] eqn:Er; [discriminate|].
+      apply bind_inv in H as (st & r1 & s1 & r2 & H1 & H2 & _). inversion H2; subst. clear H2.
+      assert (Hn : forall y, In y (x :: rest) -> nc_rule y = true) by (intros y Hy; apply (nc_rules_named name); rewrite Er; exact Hy).
+      destruct (sim_first_non_skip prog r' r Hr1 (x :: rest) Hn _ _ _ _ Hv H1) as ((Hwf1 & Hvf1 & Hvs1) & E1 & C1).
+      assert (Cin : computes (fun k => rule_status_inner' prog (r' k) name) (erase s0) a).
+      { eapply Ev_impl; [|exact C1]. intros k Hk. unfold rule_status_inner'. rewrite Er. exact Hk. }
+      split; [|split; [|exact Cin]].
+      * split; [|split]; cbn [frames statuses]; [exact Hwf1|exact Hvf1|].
+        intros n st Hn2. cbn [frames statuses] in *. rewrite assoc_assoc_set in Hn2.
+        destruct (String.eqb n name) eqn:En.
+        -- apply String.eqb_eq in En. subst n. inversion Hn2; subst.
+           apply erase_shape in E1. rewrite E1, Eroot. exact Cin.
+        -- apply Hvs1. exact Hn2.
+      * unfold erase. cbn [frames]. apply erase_shape in E1. rewrite E1. reflexivity.
+  - intros s0 Hlen ft Hv E.
+    destruct (assoc name (statuses s0)) as [st|] eqn:Ec; [discriminate|].
+    destruct (rules_named prog name) as [|x rest] eqn:Er.
+    { exists 0. intros k _. unfold rule_status_inner'. rewrite Er. exact E. }
+    assert (Hn : forall y, In y (x :: rest) -> nc_rule y = true) by (intros y Hy; apply (nc_rules_named name); rewrite Er; exact Hy).
+    destruct (first_non_skip r (x :: rest) s0) as [[[st r1] s1]| | | |] eqn:E1.
+    + unfold bind in E. rewrite E1 in E. discriminate.
+    + assert (E0 : fault_of (first_non_skip r (x :: rest) s0) = Some ft) by (rewrite E1; unfold bind in E; rewrite E1 in E; exact E).
+      eapply Ev_impl; [|exact (proj2 (sim2_first_non_skip (x :: rest) Hn) s0 ft Hv E0)]. intros k Hk. unfold rule_status_inner'. rewrite Er. exact Hk.
+    + assert (E0 : fault_of (first_non_skip r (x :: rest) s0) = Some ft) by (rewrite E1; unfold bind in E; rewrite E1 in E; exact E).
+      eapply Ev_impl; [|exact (proj2 (sim2_first_non_skip (x :: rest) Hn) s0 ft Hv E0)]. intros k Hk. unfold rule_status_inner'. rewrite Er. exact Hk.
+    + unfold bind in E. rewrite E1 in E. discriminate.
+    + assert (E0 : fault_of (first_non_skip r (x :: rest) s0) = Some ft) by (rewrite E1; unfold bind in E; rewrite E1 in E; exact E).
+      eapply Ev_impl; [|exact (proj2 (sim2_first_non_skip (x :: rest) Hn) s0 ft Hv E0)]. intros k Hk. unfold rule_status_inner'. rewrite Er. exact Hk.
+Qed.
+Ltac sl2 ::= first [apply sim2_unary_operation; assumption | apply sim2_binary_operation; assumption
+                   | apply sim2_access_clause_body; assumption | apply sim2_rule_status_body].
+
+Lemma sim2_named_clause_body n : sim2 (named_clause_body prog r n) (fun k => named_clause_body' prog (r' k) n).
+Proof. unfold named_clause_body, named_clause_body'. destruct n. sms2. Qed.
+
+Lemma sim2_gblock_body b : nc_block b = true -> sim2 (gblock_body r b) (fun k => gblock_body (r' k) b).
+Proof.
+  intros Hn. destruct b as [lets cnf]. cbn in Hn. ncsplit. fold (nc_lets lets) in H. fold (nc_cnf cnf) in H0.
+  unfold gblock_body. apply sim2_bind; [apply sim2_ctx_root|intros root].
+  apply sim2_with_frame; [split; [assumption|reflexivity]|].
+  apply (sim2_cnf_body_in (ev_clause r) (fun k => ev_clause (r' k))).
+  intros line x Hl Hx. apply Hc. eapply nc_cnf_in; eassumption.
+Qed.
+
+Lemma sim2_block_clause_body aq b ne : nc_aq aq = true -> nc_block b = true ->
+  sim2 (block_clause_body r aq b ne) (fun k => block_clause_body (r' k) aq b ne).
+Proof.
+  intros Ha Hb. pose proof (nc_aq_query _ Ha) as Hq1. unfold block_clause_body.
+  apply sim2_node. apply sim2_bind; [sms2|intros values]. destruct values; cbv beta iota; [sms2|].
+  apply sim2_bind; [|intros ?; sms2]. apply sim2_mapM. intros each.
+  destruct each; cbv beta iota; try (apply sim2_with_frame; [exact I|apply sim2_gblock_body; assumption]). sms2.
+Qed.
+
+Lemma sim2_param_call_body params n : forallb nc_lv params = true ->
+  sim2 (param_call_body prog r params n) (fun k => param_call_body prog (r' k) params n).
+Proof.
+  intros Hp. unfold param_call_body. destruct n as [dep neg custom].
+  destruct (find_param_rule prog dep) as [p|] eqn:Ef; [|sms2].
+  pose proof (find_param_rule_nc _ _ Ef) as Hnr.
+  destruct (negb (Nat.eqb (List.length (pr_params p)) (List.length params))); [sms2|].
+  apply sim2_bind.
+  - apply (sim2_mapM_in _ (fun k each => match each with
+                          | LValue v => ret [QResolved v]
+                          | LAccess a => ctx_query (r' k) (aq_query a)
+                          | LFunction ps fname => ev_fn (r' k) fname ps
+                          end)).
+    intros e Hin. pose proof (forallb_in _ _ _ Hp Hin) as Hne. destruct e as [v|a|ps fname]; cbn in Hne.
+    + apply sim2_ret.
+    + apply sim2_ctx_query. apply nc_aq_query. exact Hne.
+    + apply Hfn. exact Hne.
+  - intros resolved. apply sim2_with_frame; [exact I|]. apply Hrule. exact Hnr.
+Qed.
+
+Lemma sim2_when_clause_body w : nc_wc w = true -> sim2 (when_clause_body re prog r w) (fun k => when_clause_body' re prog (r' k) w).
+Proof.
+  intros Hn. destruct w as [g|n|ps n]; cbn in Hn; unfold when_clause_body, when_clause_body'.
+  - apply sim2_access_clause_body; assumption.
+  - apply sim2_named_clause_body.
+  - apply sim2_param_call_body; assumption.
+Qed.
+
+Lemma sim2_conds conds : nc_conds conds = true ->
+  sim2 (cnf_body (when_clause_body re prog r) conds) (fun k => cnf_body (when_clause_body' re prog (r' k)) conds).
+Proof.
+  intros Hn. apply (sim2_cnf_body_in (when_clause_body re prog r) (fun k => when_clause_body' re prog (r' k))).
+  intros line x Hl Hx. apply sim2_when_clause_body. eapply nc_conds_in; eassumption.
+Qed.
+
+Lemma sim2_when_block_body conds b : nc_conds conds = true -> nc_block b = true ->
+  sim2 (when_block_body re prog r conds b) (fun k => when_block_body' re prog (r' k) conds b).
+Proof.
+  intros Hcn Hb. unfold when_block_body, when_block_body'. apply sim2_node. apply sim2_bind.
+  - apply sim2_node. apply sim2_conds; assumption.
+  - intros cst. destruct cst; cbv beta iota; try apply sim2_ret. apply sim2_gblock_body; assumption.
+Qed.
+
+Lemma sim2_clause_body g : nc_clause g = true -> sim2 (clause_body re prog r g) (fun k => clause_body' re prog (r' k) g).
+Proof.
+  intros Hn. destruct g as [c|n|ps n|aq b ne|conds b]; cbn in Hn; unfold clause_body, clause_body'.
+  - apply sim2_access_clause_body; assumption.
+  - apply sim2_named_clause_body.
+  - apply sim2_param_call_body; assumption.
+  - ncsplit. apply sim2_block_clause_body; assumption.
+  - ncsplit. apply sim2_when_block_body; assumption.
+Qed.
+
+Lemma sim2_type_block_body tn conds b q : nc_oconds conds = true -> nc_block b = true -> nc_query q = true ->
+  sim2 (type_block_body re prog r tn conds b q) (fun k => type_block_body' re prog (r' k) tn conds b q).
+Proof.
+  intros Hcn Hb Hnq. unfold type_block_body, type_block_body'. apply sim2_node. apply sim2_bind.
+  - destruct conds as [c|]; cbv beta iota; [|apply sim2_ret]. apply sim2_bind; [|intros ?; apply sim2_ret].
+    apply sim2_node. apply sim2_conds; assumption.
+  - intros go. destruct (negb go); cbv beta iota; [apply sim2_ret|].
+    apply sim2_bind; [apply sim2_ctx_query; assumption|intros values]. destruct values; cbv beta iota; [apply sim2_ret|].
+    apply sim2_bind; [|intros ?; apply sim2_ret]. apply sim2_mapM. intros each.
+    destruct each; cbv beta iota; try (apply sim2_node; apply sim2_with_frame; [exact I|apply sim2_gblock_body; assumption]).
+    apply sim2_failM.
+Qed.
+
+Lemma sim2_rule_clause_body c : nc_rule_clause c = true ->
+  sim2 (rule_clause_body re prog r c) (fun k => rule_clause_body' re prog (r' k) c).
+Proof.
+  intros Hn. destruct c as [g|conds b|tn conds b q]; cbn in Hn; unfold rule_clause_body, rule_clause_body'.
+  - apply Hc; assumption.
+  - ncsplit. apply sim2_when_block_body; assumption.
+  - ncsplit. apply sim2_type_block_body; assumption.
+Qed.
+
+Lemma sim2_rule_body x : nc_rule x = true -> sim2 (rule_body re prog r x) (fun k => rule_body' re prog (r' k) x).
+Proof.
+  intros Hn. unfold nc_rule in Hn. ncsplit. unfold rule_body, rule_body'. apply sim2_node. apply sim2_bind.
+  - destruct (rule_conditions x) as [c|]; cbv beta iota; [|apply sim2_ret]. apply sim2_bind; [|intros ?; apply sim2_ret].
+    apply sim2_node. apply sim2_conds; assumption.
+  - intros go. destruct (negb go); cbv beta iota; [apply sim2_ret|].
+    apply sim2_bind; [apply sim2_ctx_root|intros root]. apply sim2_with_frame; [split; [assumption|reflexivity]|].
+    apply (sim2_cnf_body_in (rule_clause_body re prog r) (fun k => rule_clause_body' re prog (r' k))).
+    intros line c Hl Hx. apply sim2_rule_clause_body. eapply forallb_in; [|exact Hx]. eapply forallb_in; [|exact Hl]. assumption.
+Qed.
+
+
 End SimF.
+
+(* ------------------------------------------------------------------ *)
+(* SEval is simulated by PEval also when it fails, at every fuel *)
+
+Lemma sim2_shift prog r' {A} (m : M A) (m' : nat -> M A) : sim2 prog r' m (fun k => m' (S k)) -> sim2 prog r' m m'.
+Proof.
+  intros [Hd Hf]. split; [apply sim_shift; exact Hd|]. intros s ft Hv E. apply Ev_shift. exact (Hf s ft Hv E).
+Qed.
+
+Theorem evalN_sim2 re conv prog : nc_prog prog = true ->
+  forall n, ev_sim2 prog (evalP re conv prog) (evalN re conv prog n).
+Proof.
+  intros Hprog n. induction n as [|n IH].
+  - split; [|split; [|split; [|split]]].
+    + intros qi q cur cv _. apply sim2_oofM.
+    + intros g _. apply sim2_oofM.
+    + intros x _. apply sim2_oofM.
+    + intros nm. apply sim2_oofM.
+    + intros f ps _. apply sim2_oofM.
+  - cbn [evalN]. split; [|split; [|split; [|split]]]; cbn [ev_query ev_clause ev_rule ev_resolve ev_fn].
+    + intros qi q cur cv Hn. apply sim2_shift. cbn [evalP ev_query]. apply sim2_query_body; assumption.
+    + intros g Hn. apply sim2_shift. cbn [evalP ev_clause]. apply sim2_clause_body; assumption.
+    + intros x Hn. apply sim2_shift. cbn [evalP ev_rule]. apply sim2_rule_body; assumption.
+    + intros nm. apply sim2_shift. cbn [evalP ev_resolve]. apply sim2_resolve_body; assumption.
+    + intros f ps Hn. apply sim2_shift. cbn [evalP ev_fn]. apply sim2_fn_body; assumption.
+Qed.
+
+(* a failure of a file is the failure of the memo-free evaluation *)
+Theorem eval_file_fault_memo_free re conv prog n doc ft :
+  nc_prog prog = true ->
+  fault_of (eval_file re conv prog n doc) = Some ft ->
+  Ev (fun k => fault_of (eval_file' re conv prog k doc) = Some ft).
+Proof.
+  intros Hprog H. unfold eval_file, file_body in H.
+  pose proof (evalN_sim2 re conv prog Hprog n) as Hs. destruct Hs as (_ & _ & Hrule & _).
+  assert (K : sim2 prog (evalP re conv prog)
+                (node (sts <- mapM (ev_rule (evalN re conv prog n)) (rf_rules prog) ;; ret (fold_fail_pass_skip sts)) KFileCheck)
+                (fun k => node (sts <- mapM (ev_rule (evalP re conv prog k)) (rf_rules prog) ;; ret (fold_fail_pass_skip sts)) KFileCheck)).
+  { apply sim2_node.
+    apply (sim2_bind prog _ (mapM (ev_rule (evalN re conv prog n)) (rf_rules prog))
+             (fun k => mapM (ev_rule (evalP re conv prog k)) (rf_rules prog)) _ (fun k sts => ret (fold_fail_pass_skip sts))).
+    - apply (sim2_mapM_in prog _ (ev_rule (evalN re conv prog n)) (fun k => ev_rule (evalP re conv prog k))).
+      intros x Hx. apply Hrule. unfold nc_prog in Hprog. ncsplit. eapply forallb_in; eassumption.
+    - intros sts. apply sim2_ret. }
+  pose proof (proj2 K _ ft (init_state_valid re conv prog doc Hprog) H) as F.
+  rewrite init_state_erase in F. exact F.
+Qed.
+
+Corollary eval_file_error_memo_free re conv prog n doc e :
+  nc_prog prog = true -> eval_file re conv prog n doc = Err e ->
+  Ev (fun k => eval_file' re conv prog k doc = Err e).
+Proof.
+  intros Hprog H. eapply Ev_impl; [|apply (eval_file_fault_memo_free re conv prog n doc (FErr e) Hprog); rewrite H; reflexivity].
+  intros k. cbv beta. generalize (eval_file' re conv prog k doc). intros o Hk. destruct o as [x|e'| | |]; cbn in Hk; try discriminate. inversion Hk. reflexivity.
+Qed.
